@@ -299,6 +299,56 @@ def gen_multi_case(rng):
     return dict(pats=pats, flags=f, input=data, cli=True, via_file=rng.random() < 0.4)
 
 
+SMART_RANGE = ["foo[A-z]", "x[B-b]", "[A-z]bar", "[Q-q]+x", "[a-zA]b", "a[^A-z]", "[[A-z]&&[^_]]k", "\\x41b", "a\\x{5a}",
+               "ab[a-z]", "\\pLx", "\\Wb", "[[:upper:]]a", "(?i:A)b", "a|[K-k]", "é[À-ü]"]
+
+
+def gen_smart_case(rng):
+    """-S with the only uppercase letters inside class ranges / hex escapes (or none at all: escapes such as \\W \\pL and
+    POSIX classes do not count); inputs differ only in case"""
+    pat = rng.choice(SMART_RANGE)
+    pats = [pat] if rng.random() < 0.8 else [pat, rng.choice(["q", "Zz", "[B-b]"])]
+    f = dict.fromkeys(FLAG_NAMES, False)
+    f["smart"] = True
+    if rng.random() < 0.15:
+        f["invert"] = True
+    if rng.random() < 0.1:
+        f["word"] = True
+    base = [b"fooa", b"FOOA", b"fooZ", b"FOO_", b"xb", b"XB", b"Xb", b"abar", b"ABAR", b"Zbar", b"qx", b"QX", b"ab", b"AB", b"aB",
+            b"Ab", b"a1", b"A!", b"_k", b"zK", b"az", b"AZ", b"abq", b"ABQ", b"\xc3\xa9\xc3\xa0", b"\xc3\x89\xc3\x80", b"ak", b"aK", b"x-b",
+            b"X b", b"Ba", b"ba"]
+    lines = rng.sample(base, rng.randint(4, 9))
+    data = term(f).join(lines) + term(f)
+    return dict(pats=pats, flags=f, input=data, cli=rng.random() < 0.4)
+
+
+CTRL_PIECES = ["a", "b", "foo", "\r", "\n", "\r\n", " ", "x", "\r"]
+
+
+def gen_control_literal_case(rng):
+    """plain literal patterns with raw CR / LF under the three terminators (rejected, or matched only inside a line's
+    content), via -e, -F"""
+    pats = ["".join(rng.choice(CTRL_PIECES) for _ in range(rng.randint(1, 3))) for _ in range(rng.choice([1, 1, 2]))]
+    f = dict.fromkeys(FLAG_NAMES, False)
+    m = rng.random()
+    if m < 0.5:
+        f["crlf"] = True
+    elif m < 0.65:
+        f["null"] = True
+    if rng.random() < 0.4:
+        f["fixed"] = True
+    if rng.random() < 0.15:
+        f["invert"] = True
+    lines = []
+    for p in pats:
+        b = p.encode()
+        lines += [b, b"z" + b + b"q"]
+    lines += [b"ab", b"a", b"foo b"]
+    rng.shuffle(lines)
+    data = term(f).join(lines) + term(f)
+    return dict(pats=pats, flags=f, input=data, cli=rng.random() < 0.5)
+
+
 def gen_counted_case(rng):
     pat, lines = R.gen_counted(rng)
     f = dict.fromkeys(FLAG_NAMES, False)
@@ -335,6 +385,8 @@ CORPUS = [
     (["(?-u:\\xff)"], {}, b"a\xffb\n\xfe\n"),
     (["\\b[A-Z]x:(ab){12};z"], {}, b"foo Qx:" + b"ab" * 12 + b";z bar\nfoo Qx:" + b"ab" * 11 + b";z bar\nfoo Qx:" + b"ab" * 13 + b";z\n"),
     ([":(ab){12};"], dict(word=True), b"foo Qx :" + b"ab" * 12 + b"; z bar\nQ:" + b"ab" * 10 + b";\n"),
+    (["foo[A-z]"], dict(smart=True), b"fooa\nFOOA\nFOO_\n"), (["x[B-b]"], dict(smart=True), b"xb\nXB\nXb\n"),
+    (["a\rb"], dict(crlf=True), b"a\rb\r\nab\r\n"), (["a\rb"], dict(crlf=True, fixed=True), b"za\rbq\r\n"),
     (["\\d", "\\D"], dict(icase=True), b"1\na\n\n"),
     (["\\S", "\\s"], dict(icase=True), b" \nx\n"),
 ]
@@ -352,7 +404,10 @@ def run(ctx):
         f.update(kw)
         cases.append(dict(pats=pats, flags=f, input=inp))
     check_cases(ctx, cases, stats, cli_every=1)
-    special = [gen_multi_case(rng) for _ in range(ctx.count(220))] + [gen_counted_case(rng) for _ in range(ctx.count(200))]
+    special = [gen_multi_case(rng) for _ in range(ctx.count(220))] + [gen_counted_case(rng) for _ in range(ctx.count(200))] + \
+        [gen_smart_case(rng) for _ in range(ctx.count(200))] + [gen_control_literal_case(rng) for _ in range(ctx.count(200))]
+    stats["smart_case_range_cases"] = ctx.count(200)
+    stats["control_literal_cases"] = ctx.count(200)
     stats["multi_pattern_case_pairs"] = ctx.count(220)
     stats["counted_repetition_cases"] = ctx.count(200)
     check_cases(ctx, special, stats)
